@@ -36,6 +36,7 @@ PG_BY_PROP = {
     "C15": ["c06_two"],
     "C16": ["c16_shared", "c16_disjoint_sync", "c16_FINDING_txid", "c16_FINDING_logid"],
     "C09": ["c16_shared", "c16_disjoint_sync", "c09_NEG_noadv"],
+    "C12": [],
 }
 
 TIERS = {
@@ -46,7 +47,7 @@ TIERS = {
 }
 
 
-FAMILY_OF = {"C06": "overdraft/", "C13": "ik/", "C14": "ref/", "C15": "revert/", "C16": "ids/", "C09": "ids/"}
+FAMILY_OF = {"C06": "overdraft/", "C13": "ik/", "C14": "ref/", "C15": "revert/", "C16": "ids/", "C09": "ids/", "C12": "import/"}
 
 
 def build_conc(tier, seed, prop):
@@ -192,7 +193,7 @@ def evaluate_conc(c, prop, d):
 
 
 def vprop(fam):
-    for pre, p in (("overdraft", "C06"), ("ik/", "C13"), ("ref/", "C14"), ("revert/", "C15"), ("ids/", "C16")):
+    for pre, p in (("overdraft", "C06"), ("ik/", "C13"), ("ref/", "C14"), ("revert/", "C15"), ("ids/", "C16"), ("import/", "C12")):
         if fam.startswith(pre):
             return p
     return ""
